@@ -95,7 +95,11 @@ def replayer(extra, path):
     cfg, v = extra["cfg"], extra["variant"]
     c = cat()
     with LogCapture():
-        real = W.ReceiverReal(cfg, c, role=v["role"], mode=v["mode"], grid=v["grid"], chunk_mode=v["chunk"], seed=v["seed"])
+        try:
+            real = W.ReceiverReal(cfg, c, role=v["role"], mode=v["mode"], grid=v["grid"], chunk_mode=v["chunk"], seed=v["seed"])
+        except W.HandshakeFailed as e:     # an observation about the code under test, not a harness failure
+            return {"step": 0, "act": "handshake", "args": [], "exp": "opening handshake completes", "obs": str(e)[:400],
+                    "sig": {"act": "handshake", "where": e.where, "role": v["role"], "deflate": cfg["deflate"], "variant_grid": v["grid"]}}
         try:
             for i, s in enumerate(path):
                 obs = canon(real.step(s["act"], s["args"]))
@@ -124,8 +128,11 @@ def random_trace(job):
     good = [e for e in usable if len(e["wire"]) <= LIMIT and len(e["data"]) <= LIMIT and (e["kind"] == "binary" or e["utf8ok"])]
     ev = []
     with LogCapture():
-        real = W.ReceiverReal(cfg, c, role=role, mode=rng.choice(["cb", "read"]), grid=rng.randrange(7),
-                              chunk_mode=rng.randrange(4), seed=seed)
+        try:
+            real = W.ReceiverReal(cfg, c, role=role, mode=rng.choice(["cb", "read"]), grid=rng.randrange(7),
+                                  chunk_mode=rng.randrange(4), seed=seed)
+        except W.HandshakeFailed as e:      # no specification action is called "error:...": TLC rejects the trace
+            return {"id": tid, "cfg": cfg, "role": role, "ev": [{"a": "error:handshake", "args": [e.where, e.detail], "obs": {}}]}
         try:
             cur = None            # [entry, offset]
             over_left = None
@@ -197,6 +204,8 @@ def random_trace(job):
 def trace_sig(t, bad, l):
     if not bad:
         return {}
+    if bad.get("a") != "recv":
+        return {"role": t.get("role"), "deflate": t["cfg"]["deflate"], "where": bad["args"][0] if bad.get("args") else None}
     f = bad["args"][0]
     return {"role": t.get("role"), "deflate": t["cfg"]["deflate"],
             "frame": {"op": f["op"], "rsv": f["rsv"], "fin": f["fin"], "len_class": _len_class(f["len"])},
